@@ -16,7 +16,13 @@ Fixpoint swalk (fuel : nat) (h : heap) (v : val) (seen : list positive) : text *
       | VBool b => (kw (if b then "b1" else "b0"), seen)
       | VInt z => (105%N :: show_Z z, seen)
       | VFun _ _ => (kw "fn", seen)
-      | VFloat l | VStr l | VArr l =>
+      | VFloat l =>
+          (* floats are immutable: whether two positions hold the same float BOX is not observable, so floats carry no identity *)
+          match PM.find l (cells h) with
+          | Some (true, OFloat x) => (show_float_bits x, seen)
+          | _ => (kw "<freed>", seen)
+          end
+      | VStr l | VArr l =>
           match pos_index l seen 0 with
           | Some k => (35%N :: show_nat k, seen)
           | None =>
